@@ -255,17 +255,20 @@ def build():
     def inputs_fn(name, rows, flat):
         f = u.extract(R, IMPL, name, f'CircuitRunner::{name}')
         vals = 'public_values' if 'public' in name else 'private_values'
-        f.rewrite('R5', f'for (i, value) in {vals}.iter().enumerate() {{', f'for i in 0..{vals}.len() {{ let value = &{vals}[i];')
+        # R5 loop-form normalisations (each applies where the idiom occurs)
+        f.rewrite_re('R5', r'for \((\w+), (\w+)\) in (\w+)\.iter\(\)\.enumerate\(\) \{', r'for \1 in 0..\3.len() { let \2 = &\3[\1];')
+        f.rewrite_re('R5', r'for \(&(\w+), (\w+)\) in ([\w.]+)\.iter\(\)\.zip\((\w+)\) \{',
+                     r'for i in 0..(if \3.len() <= \4.len() { \3.len() } else { \4.len() }) { let \1 = \3[i]; let \2 = &\4[i];')
+        # R6: `let s = V.get_mut(I).ok_or(E)?; *s = X;` -> bounds-checked indexed store
+        f.rewrite_re('R6', r'let (\w+) = ([\w.\s]+?)\s*\.get_mut\(([^;]+?)\)\s*\.ok_or\(([^;]+?)\)\?;\s*\*\1 = ([^;]+);',
+                     r'if (\3) < \2.len() { \2[\3] = \5; } else { return Err(\4); }', flags_dotall=True)
         f.ensures('monotone', 'monotone(old(self).witness@, final(self).witness@) && final(self).circuit == old(self).circuit')
         f.ensures('wrong_length_is_error', f'{vals}@.len() != old(self).circuit.{flat} ==> ret is Err && final(self).witness@ == old(self).witness@')
         f.ensures('ok_places_every_value', f'ret is Ok ==> {vals}@.len() == old(self).circuit.{rows}@.len() && forall|i: int| 0 <= i < {vals}@.len() ==> slot(final(self).witness@, #[trigger] old(self).circuit.{rows}@[i]) == Some({vals}@[i])')
-        f.loop(f'for i in 0..{vals}.len()', invariants=[
-            ('mono', 'monotone(old(self).witness@, self.witness@) && self.circuit == old(self).circuit'),
-            ('len', f'{vals}@.len() == self.circuit.{rows}@.len() && {vals}@.len() == self.circuit.{flat}'),
-            ('placed', f'forall|k: int| 0 <= k < i ==> slot(self.witness@, #[trigger] self.circuit.{rows}@[k]) == Some({vals}@[k])'),
-        ])
-        f.before('self.set_witness(widx, *value)?;', 'let ghost w_before = self.witness@;')
-        f.after('self.set_witness(widx, *value)?;', '''proof {
+        # structural anchors: loop head, loop body start, loop body end
+        lo = f._loop_open('for i in 0..')
+        f.body = f.body[:lo + 1] + ' let ghost w_before = self.witness@; ' + f.body[lo + 1:]
+        f.at_loop_end('for i in 0..', '''proof {
                 lemma_monotone_trans(old(self).witness@, w_before, self.witness@);
                 assert forall|k: int| 0 <= k < i implies slot(self.witness@, #[trigger] self.circuit.%s@[k]) == Some(%s@[k]) by {
                     let id = self.circuit.%s@[k];
@@ -273,6 +276,11 @@ def build():
                     assert(w_before[id.0 as int].is_some());
                 }
             }''' % (rows, vals, rows, vals))
+        f.loop('for i in 0..', invariants=[
+            ('mono', 'monotone(old(self).witness@, self.witness@) && self.circuit == old(self).circuit'),
+            ('len', f'{vals}@.len() == self.circuit.{rows}@.len() && {vals}@.len() == self.circuit.{flat}'),
+            ('placed', f'forall|k: int| 0 <= k < i ==> slot(self.witness@, #[trigger] self.circuit.{rows}@[k]) == Some({vals}@[k])'),
+        ])
         return f
     sp = inputs_fn('set_public_inputs', 'public_rows', 'public_flat_len')
     spr = inputs_fn('set_private_inputs', 'private_input_rows', 'private_flat_len')
